@@ -191,34 +191,42 @@ def holds_union_member(s, t):
     return inner(t, True)
 
 
-def spec_default(named, t, d):
+def spec_default(named, t, d, ns=""):
     """the value a field of type `t` takes from its JSON default `d`, per the specification: bytes and fixed from
-    code points, a union through its first branch, records / arrays / maps member by member"""
+    code points, a union through its first branch, records / arrays / maps member by member; a by-name reference is
+    resolved in the namespace in effect (`ns`), like every reference"""
     if isinstance(t, str):
-        if t in named:
-            return spec_default(named, named[t], d)
+        cands = [t] if "." in t else (([ns + "." + t] if ns else []) + [t])
+        for c in cands:
+            if c in named:
+                return spec_default(named, named[c], d, ns)
         if t == "bytes":
             return d.encode("iso-8859-1")
         return d
     if isinstance(t, list):
-        return spec_default(named, t[0], d)
+        return spec_default(named, t[0], d, ns)
     ty = t.get("type")
-    if ty == "record":
+    if ty in ("record", "error"):
+        nm = t.get("name", "")
+        if "." in nm:
+            ns2 = nm.rpartition(".")[0]
+        else:
+            ns2 = t.get("namespace", ns) or ""
         out = {}
         for f in t["fields"]:
             if f["name"] in d:
-                out[f["name"]] = spec_default(named, f["type"], d[f["name"]])
+                out[f["name"]] = spec_default(named, f["type"], d[f["name"]], ns2)
             else:
-                out[f["name"]] = spec_default(named, f["type"], f["default"])
+                out[f["name"]] = spec_default(named, f["type"], f["default"], ns2)
         return out
     if ty == "array":
-        return [spec_default(named, t["items"], x) for x in d]
+        return [spec_default(named, t["items"], x, ns) for x in d]
     if ty == "map":
-        return {k: spec_default(named, t["values"], x) for k, x in d.items()}
+        return {k: spec_default(named, t["values"], x, ns) for k, x in d.items()}
     if ty in ("fixed", "bytes"):
         return d.encode("iso-8859-1")
     if isinstance(ty, (dict, list)):
-        return spec_default(named, ty, d)
+        return spec_default(named, ty, d, ns)
     return d
 
 
@@ -685,7 +693,8 @@ def run(tier, seed):
                         try:
                             named = {}
                             fastavro.parse_schema(copy.deepcopy(s), named)
-                            dv = spec_default(named, f["type"], copy.deepcopy(f["default"]))
+                            top = fastavro.parse_schema(copy.deepcopy(s))
+                            dv = spec_default(named, f["type"], copy.deepcopy(f["default"]), top.get("name", "").rpartition(".")[0])
                         except Exception:
                             run.tag("absent-field:default-undefined")
                             break
